@@ -95,11 +95,23 @@ class VirtualLoop(asyncio.SelectorEventLoop):
 def make_virtual_datetime(loop_getter: Callable[[], VirtualLoop | None]) -> type:
     """A datetime subclass whose now() follows the virtual clock of the current loop."""
 
+    last: list[_datetime.datetime] = [EPOCH - _datetime.timedelta(days=1)]
+    tick = _datetime.timedelta(microseconds=1)
+
     class VDateTime(_datetime.datetime):
         @classmethod
         def now(cls, tz=None):  # type: ignore[no-untyped-def,override]
             loop = loop_getter()
             base = EPOCH + _datetime.timedelta(seconds=loop._vt if loop else 0.0)
+            # like a real clock, two readings are never equal: within one virtual instant each
+            # reading is 1 us later than the previous one (two lines of one serial read get distinct
+            # timestamps on a real machine, too)
+            if loop is not None and getattr(loop, "_vdt_owner", None) is not last:
+                loop._vdt_owner = last  # a new loop restarts the virtual epoch
+                last[0] = EPOCH - _datetime.timedelta(days=1)
+            if base <= last[0]:
+                base = last[0] + tick
+            last[0] = base
             return cls(
                 base.year, base.month, base.day, base.hour, base.minute, base.second, base.microsecond
             )
